@@ -424,6 +424,35 @@ pub fn run() {
                     })));
                     "ok".into()
                 }
+                ["pqhook2", nth, ready, reset] => {
+                    // at the nth read of the flags (GetState) from now on, while the actor is held: first `ready` is reported, then `reset`
+                    // is cleared - two messages queued in that order before the actor goes on, so both are handled before the next read
+                    use crate::provision::ProvisionFlags;
+                    let nth: usize = nth.parse().unwrap();
+                    let flag = |s: &str| match s {
+                        "r" => ProvisionFlags::REDIRECTOR_READY,
+                        "k" => ProvisionFlags::KEY_LATCH_READY,
+                        _ => ProvisionFlags::LISTENER_READY,
+                    };
+                    let (fa, fb) = (flag(ready), flag(reset));
+                    let pv = shared_state.get_provision_shared_state();
+                    let handle = tokio::runtime::Handle::current();
+                    let mut seen = 0usize;
+                    crate::shared_state::verif_actor::set_hook(Some(Box::new(move |actor, kind| {
+                        if actor == "provision" && kind == "GetState" {
+                            seen += 1;
+                            if seen == nth {
+                                let (pv1, pv2, fa, fb) = (pv.clone(), pv.clone(), fa.clone(), fb.clone());
+                                handle.spawn(async move {
+                                    // polled in this order: the first message is in the mailbox before the second
+                                    let _ = tokio::join!(pv1.update_one_state(fa), pv2.reset_one_state(fb));
+                                });
+                                std::thread::sleep(std::time::Duration::from_millis(150));
+                            }
+                        }
+                    })));
+                    "ok".into()
+                }
                 ["slowall", us] => {
                     // a schedule in which every actor is slow: each message any of them handles takes `us` microseconds longer
                     let us: u64 = us.parse().unwrap();
